@@ -120,6 +120,15 @@ func conjuncts(cond ssa.Value, truth bool, e edge, depth int) []fact {
 			out := []fact{{x.X, !truth, e}}
 			return append(out, conjuncts(x.X, !truth, e, depth+1)...)
 		}
+	case *ssa.Call:
+		// a test extracted into an unexported predicate helper (one return, a pure expression of its
+		// parameters): the helper's returned expression holds with the same truth. Its operands are the helper's
+		// parameters; predicateArgs maps them back to the arguments of this call.
+		if h := predicateHelper(x); h != nil {
+			ret := retVal(returnsOf(h)[0], 0)
+			out := []fact{{ret, truth, e}}
+			return append(out, conjuncts(ret, truth, e, depth+1)...)
+		}
 	case *ssa.Phi:
 		var rhs ssa.Value
 		var k, haveK bool
@@ -1085,4 +1094,44 @@ func constTableField(v ssa.Value) ([]int64, bool) {
 		}
 	}
 	return vals, true
+}
+
+// predicateHelper: the call is to an unexported in-module function with one bool result and one
+// return statement (frameLenInBounds(n) bool { return n >= 64 && n <= 8<<20 }).
+func predicateHelper(cl *ssa.Call) *ssa.Function {
+	h := plainHelper(cl.Call.StaticCallee())
+	if h == nil || h.Signature.Results().Len() != 1 {
+		return nil
+	}
+	if b, ok := h.Signature.Results().At(0).Type().Underlying().(*types.Basic); !ok || b.Kind() != types.Bool {
+		return nil
+	}
+	if len(returnsOf(h)) != 1 {
+		return nil
+	}
+	return h
+}
+
+// predicateArgs: for the predicate-helper calls among the facts, the map from the helper's
+// parameters to the arguments of the call.
+func predicateArgs(fts []fact) map[ssa.Value]ssa.Value {
+	out := map[ssa.Value]ssa.Value{}
+	for _, ft := range fts {
+		c := ft.Cond
+		if u, ok := c.(*ssa.UnOp); ok && u.Op == token.NOT {
+			c = u.X
+		}
+		cl, ok := c.(*ssa.Call)
+		if !ok {
+			continue
+		}
+		if h := predicateHelper(cl); h != nil {
+			for i, p := range h.Params {
+				if i < len(cl.Call.Args) {
+					out[p] = cl.Call.Args[i]
+				}
+			}
+		}
+	}
+	return out
 }
